@@ -1,7 +1,7 @@
 CONSTANTS
   Dev = {"RecordExisting", "NoCheckOnWrite", "KwDstIsSrc"}
-  MaxSteps = 2
-  AllVias = FALSE
+  MaxSteps = 1
+  AllVias = TRUE
 SPECIFICATION Spec
 INVARIANT TypeOK
 INVARIANT Attributed
